@@ -408,9 +408,33 @@ where
     {
         let symbol_table = model.symbol_table();
         let mut cdf = Vec::with_capacity(symbol_table.size_hint().0 + 1);
-        cdf.extend(
-            symbol_table.map(|(symbol, left_sided_cumulative, _)| (left_sided_cumulative, symbol)),
-        );
+
+        // `IterableEntropyModel` is a safe trait, so we must not rely on the provided symbol table
+        // being valid for memory safety. Verify what `quantile_function` relies on: the symbols'
+        // intervals are nonempty (guaranteed by the type `NonZero`), start at zero, are
+        // contiguous, and end at `1 << PRECISION`.
+        let total_minus_one =
+            wrapping_pow2::<Probability>(PRECISION).wrapping_sub(&Probability::one());
+        let mut expected_left_sided_cumulative = Probability::zero();
+        let mut complete = false;
+        for (symbol, left_sided_cumulative, probability) in symbol_table {
+            assert!(
+                !complete && left_sided_cumulative == expected_left_sided_cumulative,
+                "Invalid symbol table."
+            );
+            let probability_minus_one = probability.get() - Probability::one();
+            let remaining_minus_one = total_minus_one.wrapping_sub(&left_sided_cumulative);
+            assert!(
+                probability_minus_one <= remaining_minus_one,
+                "Invalid symbol table."
+            );
+            complete = probability_minus_one == remaining_minus_one;
+            expected_left_sided_cumulative =
+                left_sided_cumulative.wrapping_add(&probability.get());
+            cdf.push((left_sided_cumulative, symbol));
+        }
+        assert!(complete, "Invalid symbol table.");
+
         cdf.push((
             wrapping_pow2(PRECISION),
             cdf.last().expect("`symbol_table` is not empty").1.clone(),
